@@ -3,6 +3,7 @@
 package corerad
 
 import (
+	"errors"
 	"fmt"
 	"net/netip"
 	"strings"
@@ -10,6 +11,8 @@ import (
 	"time"
 
 	"github.com/mdlayher/corerad/internal/config"
+	"github.com/mdlayher/corerad/internal/plugin"
+	"github.com/mdlayher/corerad/internal/system"
 	"github.com/mdlayher/ndp"
 	"verif.local/model"
 	"verif.local/vfake"
@@ -22,6 +25,7 @@ func TestVerifC04(t *testing.T) {
 	r := vlib.Start("C04", vPart("det"))
 	defer r.Finish()
 	c04ReadFaults(t, r)
+	c04Unexpandable(r)
 	rr := r.Rand("c04", r.Part)
 	n := r.Pick(300, 100000)
 	if r.Part != "det" {
@@ -442,6 +446,84 @@ func c04ReadFaults(t *testing.T, r *vlib.Run) {
 						r.Count("read_fault_scenarios", 1)
 						r.Count("failed_forwarding_reads", failedReads)
 						r.Count("generations_after_flip_checked", after)
+					}
+				}
+			}
+		}
+	}
+}
+
+// c04Unexpandable: the debug API on an interface one of whose wildcards cannot
+// be expanded (the interface was never initialised, or the address / route
+// source fails).  No RA can be generated then, and an error is what CoreRAD
+// answers; but *if* an advertisement is reported for a non-forwarding
+// interface, it is an RA generated while forwarding is off: router lifetime 0.
+func c04Unexpandable(r *vlib.Run) {
+	wild := []string{"  [[interfaces.prefix]]\n  prefix = \"::/64\"\n", "  [[interfaces.route]]\n  prefix = \"::/0\"\n", "  [[interfaces.rdnss]]\n  servers = [\"::\"]\n"}
+	for wi, w := range wild {
+		for _, life := range []string{"", "default_lifetime = \"1800s\"\n", "default_lifetime = \"0s\"\n"} {
+			for _, why := range []string{"never-prepared", "source-fails"} {
+				for _, fwd := range []bool{false, true} {
+					for _, pos := range []string{"first", "last"} {
+						id := fmt.Sprintf("unexpandable/%d/%q/%s/%v/%s", wi, life, why, fwd, pos)
+						if !r.Mine(id) {
+							continue
+						}
+						r.Begin(id)
+						r.Nontrivial(id)
+						static := "  [[interfaces.prefix]]\n  prefix = \"2001:db8:7::/64\"\n  [[interfaces.dnssl]]\n  domain_names = [\"example.net\"]\n"
+						body := w + static
+						if pos == "last" {
+							body = static + w
+						}
+						text := "[[interfaces]]\nname = \"veth0\"\nadvertise = true\n" + life + body + "[[interfaces]]\nname = \"veth1\"\nadvertise = true\ndefault_lifetime = \"1200s\"\n[debug]\naddress = \"127.0.0.1:0\"\n"
+						cfg, err := config.Parse(strings.NewReader(text), vEpoch)
+						if err != nil {
+							r.Violation(id, "harness", err.Error(), map[string]any{"toml": text})
+							continue
+						}
+						if why == "source-fails" {
+							boom := errors.New("verif: netlink: no such device")
+							for _, p := range cfg.Interfaces[0].Plugins {
+								switch p := p.(type) {
+								case *plugin.Prefix:
+									p.Addrs = func() ([]system.IP, error) { return nil, boom }
+								case *plugin.Route:
+									p.Routes = func() ([]system.Route, error) { return nil, boom }
+								case *plugin.RDNSS:
+									p.Addrs = func() ([]system.IP, error) { return nil, boom }
+								}
+							}
+						}
+						st := vfake.NewState(vfake.NewTrace())
+						st.SetForwarding("veth0", fwd)
+						st.SetForwarding("veth1", true)
+						prom := vNewProm(st, *cfg, nil)
+						var code int
+						var out string
+						if !r.Guard(id, "panic", func() { code, out = prom.get("/_/api/interfaces") }) {
+							continue
+						}
+						_, _ = prom.gather()
+						switch code {
+						case 500:
+							r.Count("unexpandable_api_errors", 1)
+						case 200:
+							list, err := vAPIInterfaces(out)
+							if err != nil || len(list) != 2 {
+								r.Violation(id, "forwarding:API", fmt.Sprintf("API body undecodable (%v) or %d interfaces for 2 configured", err, len(list)), map[string]any{"toml": text, "body": out})
+								continue
+							}
+							adv, _ := list[0]["advertisement"].(map[string]any)
+							lt, _ := adv["router_lifetime_seconds"].(float64)
+							if adv != nil && !fwd && lt != 0 {
+								r.Violation(id, "forwarding:API", fmt.Sprintf("the debug API reports an RA for veth0 with router lifetime %v s while forwarding is off (wildcard %s)", lt, why), map[string]any{"toml": text, "body": out})
+								continue
+							}
+							r.Count("unexpandable_api_answers_checked", 1)
+						default:
+							r.Violation(id, "forwarding:API", fmt.Sprintf("API status %d", code), map[string]any{"toml": text, "body": out})
+						}
 					}
 				}
 			}
